@@ -151,6 +151,13 @@ def hs_cases(ctx):
         seed += 1
         sc = make_script(r, proto, [("c", 100, 7), ("s", 30000, 20000), ("partial", "c", 200, 3, 50), ("s", 1, 1)]).replace(",r", ",n")
         cases.append(("hs %s %d 1 %d 2 %s 1" % (proto, seed % 2, seed, sc), "hs:%s:nonblocking-split-headers" % proto, proto, sc))
+    # short writes: send() hands over only the first few bytes of what it was given and leaves a stale errno (EPIPE /
+    # EAGAIN) next to the positive count, in the handshake and in the data phase, records of every size
+    for proto in PROTOS:
+        for mode in (3, 4):
+            seed += 1
+            sc = make_script(r, proto, [("c", 100, 7), ("s", 16384, 20000), ("c", 1, 1), ("s", 3000, 700)])
+            cases.append(("hs %s %d 1 %d %d %s 1" % (proto, (seed + mode) % 2, seed, mode, sc), "hs:%s:short-writes:stale-errno-%s" % (proto, "EPIPE" if mode == 3 else "EAGAIN"), proto, sc))
     # object reuse: a second session on the SAME TLS_CONNECT objects after session 1 ended in each interesting state
     for proto in PROTOS:
         for i, state in enumerate(["partial", "rejected", "closed", "hsfail"]):
@@ -158,6 +165,34 @@ def hs_cases(ctx):
             sc = make_script(r, proto, [("c", 100, 7), ("partial", "s", 200, 3, 50), ("s", 0, 7), ("c", 17000, 20000)])
             cases.append(("hs2 %s %d %d %s %s" % (proto, (i + PROTOS.index(proto)) % 2, seed, state, sc), "reuse:%s:after-%s" % (proto, state), proto, sc))
     return cases
+
+
+# sessions whose ECDHE result x starts with a zero byte (1 in 256): the pre-master secret is the 32-byte x, leading
+# zeros included.  Seeds found by search (the sessions are deterministic: scripted entropy); verified at every run,
+# searched again if the library's entropy consumption has changed.
+LEADING_ZERO_SEEDS = {"tls12": [70154, 70613], "tls13": [70024, 70104]}
+
+
+def leading_zero_cases(ctx, exe):
+    r = core.Rng(ctx.seed * 31 + 5)
+    out = []
+    for proto in ("tls12", "tls13"):
+        sc = make_script(r, proto, [("c", 16, 16), ("s", 16, 16)])
+        mk = lambda sd: "hs %s 0 1 %d 0 %s 1" % (proto, sd, sc)
+        def zero(lines):
+            outs, _ = core.run_lines(exe, lines, shards=min(16, len(lines)))
+            return [l for l, o in zip(lines, outs) if fields(o).get("ecdh", "-/-").split("/")[0].startswith("00")]
+        good = zero([mk(sd) for sd in LEADING_ZERO_SEEDS[proto]])
+        ctx.cov["evaluations"] += len(LEADING_ZERO_SEEDS[proto])
+        if not good:
+            good = zero([mk(sd) for sd in range(71000, 71000 + 900)])[:2]
+            ctx.cov["evaluations"] += 900
+            ctx.notes.append("%s: stored leading-zero seeds are stale, searched again: %s" % (proto, [l.split()[4] for l in good]))
+        if not good:
+            ctx.violation("hs:%s:ecdh-x-leading-zero:coverage" % proto, "no session with a leading zero byte in the ECDHE result found in 900 tries", {"kind": "coverage"}, False)
+        for l in good:
+            out.append((l, "hs:%s:ecdh-x-leading-zero" % proto, proto, sc))
+    return out
 
 
 def fields(line):
@@ -185,8 +220,30 @@ def run(ctx):
         return finish(ctx)
     # ---- unit level: tls_prf, HKDF-Expand-Label, extract, verify_data
     core.differential(ctx, unit_cases(ctx), exe, model, variant="asan")
+    # ---- credential loaders from files (the sessions configure their contexts from memory: this ties the two)
+    lcases = ["load %s %d %d" % (proto, 900 + i + ctx.seed % 1000, 3 if ctx.tier != "thorough" else 12) for i, proto in enumerate(PROTOS)]
+    louts, _ = core.run_lines(exe, lcases, shards=3)
+    for line, out in zip(lcases, louts):
+        ctx.cov["evaluations"] += 1
+        ctx.count("op:load")
+        proto = line.split()[1]
+        rep = {"kind": "failing-input", "op": line, "impl": out[:600], "variant": "asan"}
+        f = fields(out) if "=" in out else {}
+        if not f or out.startswith(("FAULT", "ERR")):
+            ctx.violation("load:%s:%s" % (proto, "memory-fault" if out.startswith("FAULT") else "harness"), "credential loading did not run to its end: %s [%s]" % (out[:100], line), rep); continue
+        if f.get("loaded") != "1":
+            ctx.violation("load:%s:refused" % proto, "tls_ctx_set_certificate_and_key / _tlcp_server_certificate_and_keys / _ca_certificates refused files written by the library's own PEM writers [%s] -> %s" % (line, out), rep)
+        elif f.get("same") != "1":
+            ctx.violation("load:%s:differs" % proto, "the context loaded from files does not hold the certificates / keys that were written [%s] -> %s" % (line, out), rep)
+        elif f.get("refused") != "1":
+            ctx.violation("load:%s:accepted-bad-credentials" % proto, "a wrong password, a key that does not match the certificate or a missing file was accepted [%s] -> %s" % (line, out), rep)
+        elif len(set(f.get("fds", "0/1").split("/"))) != 1:
+            ctx.violation("load:descriptor-leak", "loading credentials (accepted and refused ones) leaves file descriptors open: %s before/after [%s]" % (f.get("fds"), line), rep)
+        else:
+            ctx.cell("load:%s:same-as-written:bad-ones-refused:no-descriptor-left" % proto)
     # ---- sessions
     cases = hs_cases(ctx)
+    cases += leading_zero_cases(ctx, exe)
     outs, err = core.run_lines(exe, [c[0] for c in cases], shards=min(8, len(cases)))
     mlines, back = [], []
     for (line, cell, proto, script), out in zip(cases, outs):
